@@ -257,7 +257,11 @@ pub fn case(s: &str, l: &mut Local) {
 pub fn replay(w: &Value) -> Vec<(String, String)> {
     let run = Run::new("C06", Tier::Quick);
     let s = w["s"].as_str().unwrap_or("").to_string();
-    run.seq(|l| case(&s, l));
+    if w["guard"].as_bool() == Some(true) {
+        if let (_, Some((kind, what))) = run_guard(Tier::Quick) { run.seq(|l| l.violation(format!("Decimal::from_str | guard page monitor | {}", kind), || (what.clone(), json!({"s": what, "guard": true})))); }
+    } else {
+        run.seq(|l| case(&s, l));
+    }
     run.violations().into_iter().map(|(s, r)| (s, r.detail)).collect()
 }
 
@@ -417,6 +421,18 @@ pub fn run(tier: Tier) -> i32 {
     });
     run.stage("(d) foreign byte at every position", json!({"lengths": "1..=24", "foreign": foreign.len()}));
 
+    // memory clause: guard-page monitor in a child process
+    let (gcases, gerr) = run_guard(tier);
+    let mut guard_machinery: Option<String> = None;
+    match gerr {
+        None => {}
+        Some((kind, what)) if kind.starts_with("guard child failed") => guard_machinery = Some(format!("{}: {}", kind, what)),
+        Some((kind, what)) => run.seq(|l| l.violation(format!("Decimal::from_str | guard page monitor | {}", kind), || (format!("{} on input {:?}", kind, what), json!({"s": what, "guard": true})))),
+    }
+    run.stage("memory clause: guard-page monitor", json!({"cases": gcases, "placements": "ending at a page end followed by PROT_NONE; starting at a page start preceded by PROT_NONE; result compared with the heap-allocated parse"}));
+    run.set_extra("guard_page_cases", json!(gcases));
+    if gcases == 0 && guard_machinery.is_none() { guard_machinery = Some("guard child reported no cases".into()); }
+
     let mut required: Vec<Vec<u64>> = Vec::new();
     required.push(vec![class_code(0, 0, 0, 0)]);
     required.push(vec![class_code(1, 0, 0, 0)]);
@@ -425,7 +441,7 @@ pub fn run(tier: Tier) -> i32 {
     for mg in 0..5u64 { required.push((2..=5u64).flat_map(|g| (0..8u64).flat_map(move |db| (0..6u64).map(move |ec| class_code(g, db, mg, ec)))).collect()); }
     for ec in 0..6u64 { required.push((2..=5u64).flat_map(|g| (0..8u64).flat_map(move |db| (0..5u64).map(move |mg| class_code(g, db, mg, ec)))).collect()); }
 
-    finish(Finish {
+    let rc = finish(Finish {
         run: &run,
         level: "model_checking",
         rule: "Complete enumeration of: (a) every string over the 12-symbol alphabet {0 1 5 9 + - . e E space x e-acute} up to the stated length (the grammar decided completely at that length, every malformed tail included); (b) all 10^8 eight-digit strings (one SWAR chunk, exhaustively) plus second/third-chunk placements; (c) decimal expansions of numeric anchors (10^j, 10^j-1 for j<=80; 2^127, 2^128, 2^256 +-d; the 39-digit wrap band k*2^128+[10^38,2^127)) split at every position into integer/fraction part, with 0/1/9 leading zeros, 24 exponent forms, 3 signs; zero literals with every exponent; trailing-zero families; (d) 14 foreign bytes/chars at every position of 1..24-digit strings. Four entry points per string (from_str, TryFrom<&str>, TryFrom<String>, fpdec_core::str_to_dec). distinct_nontrivial counts grammatical literals (distinct strings by construction within a stage).".into(),
@@ -438,5 +454,133 @@ pub fn run(tier: Tier) -> i32 {
         class_name: &class_name,
         required,
         replay: &replay,
-    })
+    });
+    if let Some(m) = guard_machinery { eprintln!("MACHINERY-FAILURE: {}", m); return 2; }
+    rc
+}
+
+// ---------------------------------------------------------------------------
+// Memory clause monitor: every string is parsed while placed flush against a
+// PROT_NONE guard page (once ending at the page end, once starting at a page
+// start), in a child process, so that a one-byte over-/under-read is a
+// SIGSEGV which the parent reports with the offending case.
+
+static GUARD_CUR: std::sync::atomic::AtomicPtr<u8> = std::sync::atomic::AtomicPtr::new(std::ptr::null_mut());
+static GUARD_LEN: std::sync::atomic::AtomicUsize = std::sync::atomic::AtomicUsize::new(0);
+static GUARD_COPY: [std::sync::atomic::AtomicU8; 256] = [const { std::sync::atomic::AtomicU8::new(0) }; 256];
+
+extern "C" fn on_segv(_sig: libc::c_int) {
+    // async-signal-safe: write the current case as hex to fd 2 and exit
+    use std::sync::atomic::Ordering::Relaxed;
+    let n = GUARD_LEN.load(Relaxed).min(256);
+    let mut buf = [0u8; 600];
+    let pre = b"GUARD-SEGV ";
+    buf[..pre.len()].copy_from_slice(pre);
+    let mut o = pre.len();
+    for i in 0..n {
+        let b = GUARD_COPY[i].load(Relaxed);
+        buf[o] = b"0123456789abcdef"[(b >> 4) as usize];
+        buf[o + 1] = b"0123456789abcdef"[(b & 15) as usize];
+        o += 2;
+    }
+    buf[o] = b'\n';
+    unsafe { libc::write(2, buf.as_ptr() as *const libc::c_void, o + 1); libc::_exit(77); }
+}
+
+struct GuardPages { base: *mut u8, page: usize }
+
+impl GuardPages {
+    fn new() -> GuardPages {
+        unsafe {
+            let page = libc::sysconf(libc::_SC_PAGESIZE) as usize;
+            let base = libc::mmap(std::ptr::null_mut(), 3 * page, libc::PROT_READ | libc::PROT_WRITE, libc::MAP_PRIVATE | libc::MAP_ANONYMOUS, -1, 0) as *mut u8;
+            assert!(!base.is_null() && base as isize != -1, "mmap");
+            assert_eq!(libc::mprotect(base as *mut libc::c_void, page, libc::PROT_NONE), 0);
+            assert_eq!(libc::mprotect(base.add(2 * page) as *mut libc::c_void, page, libc::PROT_NONE), 0);
+            GuardPages { base, page }
+        }
+    }
+    /// Parse `s` placed (a) ending exactly at the end of the accessible page, (b) starting exactly at its start.
+    fn parse_both(&self, s: &str) -> [Out; 2] {
+        use std::sync::atomic::Ordering::Relaxed;
+        let n = s.len();
+        assert!(n <= self.page);
+        GUARD_LEN.store(n, Relaxed);
+        for (i, b) in s.bytes().enumerate().take(256) { GUARD_COPY[i].store(b, Relaxed); }
+        let mut res = [Out::None, Out::None];
+        for (k, off) in [self.page * 2 - n, self.page].into_iter().enumerate() {
+            unsafe {
+                let dst = self.base.add(off);
+                std::ptr::copy_nonoverlapping(s.as_ptr(), dst, n);
+                let placed = std::str::from_utf8_unchecked(std::slice::from_raw_parts(dst, n));
+                res[k] = match catch(|| Decimal::from_str(placed)) { Ok(r) => outcome_of(r), Err(()) => Out::Panic };
+            }
+        }
+        res
+    }
+}
+
+/// Child process entry: walks the guard case list; prints "guard-cases N mismatches M".
+pub fn guard_main(tier: Tier) {
+    unsafe {
+        let mut sa: libc::sigaction = std::mem::zeroed();
+        sa.sa_sigaction = on_segv as usize;
+        libc::sigaction(libc::SIGSEGV, &sa, std::ptr::null_mut());
+        libc::sigaction(libc::SIGBUS, &sa, std::ptr::null_mut());
+    }
+    let g = GuardPages::new();
+    let mut n = 0u64;
+    let mut mism = 0u64;
+    let mut one = |s: &str| {
+        n += 1;
+        let heap = match catch(|| Decimal::from_str(s)) { Ok(r) => outcome_of(r), Err(()) => Out::Panic };
+        let r = g.parse_both(s);
+        if r[0] != heap || r[1] != heap {
+            mism += 1;
+            if mism <= 5 { println!("GUARD-MISMATCH {:?}: heap {} end-of-page {} start-of-page {}", s, heap.show(), r[0].show(), r[1].show()); }
+        }
+    };
+    // (a) all strings over SIGMA up to length 5 (quick) / 6 (thorough)
+    let maxlen = if tier.thorough() { 6 } else { 5 };
+    fn rec(cur: &mut String, depth: usize, maxlen: usize, f: &mut dyn FnMut(&str)) {
+        f(cur);
+        if depth == maxlen { return; }
+        for sym in SIGMA { let len = cur.len(); cur.push_str(sym); rec(cur, depth + 1, maxlen, f); cur.truncate(len); }
+    }
+    rec(&mut String::new(), 0, maxlen, &mut one);
+    // digit strings of every length 1..=48 (every alignment of the 8-byte chunk reader), with and without point/exponent
+    for len in 1..=48usize {
+        for pat in ["1234567890123456789012345678901234567890123456789", "0000000000000000000000000000000000000000000000001", "9999999999999999999999999999999999999999999999999"] {
+            let ds = &pat[..len];
+            one(ds);
+            one(&format!("-{}", ds));
+            for pos in 0..=len { one(&format!("{}.{}", &ds[..pos], &ds[pos..])); one(&format!("{}e{}", &ds[..pos], &ds[pos..])); one(&format!("{}x{}", &ds[..pos], &ds[pos..])); one(&format!("{}\u{e9}{}", &ds[..pos], &ds[pos..])); }
+        }
+    }
+    // (c) anchors
+    for a in anchors() {
+        let ds = a.to_dec_string();
+        for e in EXPS { one(&format!("{}{}", ds, e)); one(&format!("-0.{}{}", ds, e)); }
+        for split in (0..=ds.len()).step_by(3) { let (i, f) = ds.split_at(split); one(&format!("{}.{}", i, f)); }
+    }
+    println!("guard-cases {} mismatches {}", n, mism);
+}
+
+/// Parent side: run the guard child, interpret its result. Returns (cases, error description).
+pub fn run_guard(tier: Tier) -> (u64, Option<(String, String)>) {
+    let exe = std::env::current_exe().expect("current_exe");
+    let out = std::process::Command::new(exe).arg("c06-guard").arg(tier.name()).output().expect("run guard child");
+    let stdout = String::from_utf8_lossy(&out.stdout).to_string();
+    let stderr = String::from_utf8_lossy(&out.stderr).to_string();
+    let cases = stdout.lines().filter_map(|l| l.strip_prefix("guard-cases ")).filter_map(|l| l.split(' ').next().and_then(|x| x.parse::<u64>().ok())).next().unwrap_or(0);
+    if let Some(l) = stderr.lines().find(|l| l.starts_with("GUARD-SEGV ")) {
+        let hex = &l["GUARD-SEGV ".len()..];
+        let bytes: Vec<u8> = (0..hex.len() / 2).filter_map(|i| u8::from_str_radix(&hex[2 * i..2 * i + 2], 16).ok()).collect();
+        return (cases, Some(("read outside the string (SIGSEGV at a guard page)".into(), String::from_utf8_lossy(&bytes).to_string())));
+    }
+    if let Some(l) = stdout.lines().find(|l| l.starts_with("GUARD-MISMATCH")) {
+        return (cases, Some(("result depends on the memory surrounding the string".into(), l.to_string())));
+    }
+    if !out.status.success() { return (cases, Some((format!("guard child failed: {:?}", out.status), stderr.chars().take(300).collect()))); }
+    (cases, None)
 }
